@@ -139,3 +139,64 @@ Definition dcb_trace (len : nat) (xs : list Z) : list Z :=
   map to_bits (snd (dcb_run (dcb_new len) (map of_bits xs))).
 Definition dcb_trace_old (len : nat) (xs : list Z) : list Z :=
   map to_bits (snd (dcb_run_old (dcb_new len) (map of_bits xs))).
+
+(** * symsync.rs: ZeroCrossingTed and TimingLoop (the PI loop gains [alpha], [beta] come from libm's expf / sinhf and are data here) *)
+Definition fsignum (x : f32) : f32 :=            (* f32::signum: 1.0 for +0 and above, -1.0 for -0 and below, NaN for NaN *)
+  match x with
+  | B754_nan => B754_nan
+  | B754_zero s | B754_infinity s | B754_finite s _ _ _ => if s then Bopp f1 else f1
+  end.
+Definition fhalf : f32 := of_me 1 (-1).
+Definition fneg (x : f32) : f32 := Bopp x.
+
+Record ted := mkTed { td_h0 : f32; td_h1 : f32; td_h2 : f32; td_count : bool }.      (* history oldest first; sample_counter in {0, 1} *)
+Definition ted_new : ted := mkTed f0 f0 f0 false.
+(** [ZeroCrossingTed::input]: push; counter = (counter + 1) % 2; an estimate (zero, sym, err) when the counter is 1 *)
+Definition ted_input (t : ted) (x : f32) : ted * option (f32 * f32 * f32) :=
+  let h0 := td_h1 t in let h1 := td_h2 t in let h2 := x in
+  let c := negb (td_count t) in
+  (mkTed h0 h1 h2 c,
+   if c then Some (h1, h2, fmul h1 (fsub (fsignum h0) (fsignum h2))) else None).
+
+Record tloop := mkTloop {
+  tl_spt : f32; tl_pmin : f32; tl_pmax : f32; tl_alpha : f32; tl_beta : f32; tl_pavg : f32; tl_pinst : f32; tl_ted : ted }.
+
+Definition tloop_reset (l : tloop) : tloop :=
+  mkTloop (tl_spt l) (tl_pmin l) (tl_pmax l) (tl_alpha l) (tl_beta l) (tl_spt l) (tl_spt l) ted_new.
+
+(** [TimingLoop::advance_loop] *)
+Definition tloop_advance (l : tloop) (offset : f32) (sym : option (f32 * f32 * f32)) : tloop * f32 :=
+  let offset := fclamp offset (fneg fhalf) fhalf in
+  match sym with
+  | Some (_, _, e) =>
+    let err := fclamp (fsub e (fdiv offset (tl_spt l))) (fneg f1) f1 in
+    let pavg := fclamp (fadd (tl_pavg l) (fmul (tl_beta l) err)) (tl_pmin l) (tl_pmax l) in
+    let pi0 := fadd (fadd pavg (fmul (tl_alpha l) err)) offset in
+    let pinst := if flt pi0 f0 then pavg else pi0 in
+    (mkTloop (tl_spt l) (tl_pmin l) (tl_pmax l) (tl_alpha l) (tl_beta l) pavg pinst (tl_ted l), pinst)
+  | None =>
+    let pinst := fadd (tl_pinst l) offset in
+    (mkTloop (tl_spt l) (tl_pmin l) (tl_pmax l) (tl_alpha l) (tl_beta l) (tl_pavg l) pinst (tl_ted l), pinst)
+  end.
+
+(** [TimingLoop::input] *)
+Definition tloop_input (l : tloop) (sample offset : f32) : tloop * (f32 * option (f32 * f32 * f32)) :=
+  let '(t, sym) := ted_input (tl_ted l) sample in
+  let l1 := mkTloop (tl_spt l) (tl_pmin l) (tl_pmax l) (tl_alpha l) (tl_beta l) (tl_pavg l) (tl_pinst l) t in
+  let '(l2, p) := tloop_advance l1 offset sym in
+  (l2, (p, sym)).
+
+Fixpoint tloop_run (l : tloop) (ins : list (f32 * f32)) : tloop * list f32 :=
+  match ins with
+  | [] => (l, [])
+  | (s, o) :: r => let '(l1, (p, _)) := tloop_input l s o in let '(l2, ps) := tloop_run l1 r in (l2, p :: ps)
+  end.
+
+(** what the correspondence check prints: the period returned by every call and the symbol estimate's error (0 when none) *)
+Definition tloop_trace (spt pmin pmax alpha beta : Z) (ins : list (Z * Z)) : list Z :=
+  let l0 := mkTloop (of_bits spt) (of_bits pmin) (of_bits pmax) (of_bits alpha) (of_bits beta) (of_bits spt) (of_bits spt) ted_new in
+  let fix go l ins := match ins with
+    | [] => [to_bits (tl_pavg l)]
+    | (s, o) :: r => let '(l1, (p, sym)) := tloop_input l (of_bits s) (of_bits o) in
+                     to_bits p :: (match sym with Some (_, _, e) => to_bits e | None => 0 end) :: go l1 r
+    end in go l0 ins.
